@@ -534,9 +534,33 @@ fn build(hist: &[Op]) -> Sys {
     s
 }
 
+fn replay_wire(ctx: &Ctx, r: &serde_json::Value) -> i32 {
+    let cfg = super::c13w::cfg_from(r);
+    let prefix: Vec<usize> = r["choices"].as_array().map(|a| a.iter().map(|c| c.as_u64().unwrap() as usize).collect()).unwrap_or_default();
+    std::env::set_var("MC_SHOW_PANICS", "1");
+    let mut report = Report::new();
+    match super::c13w::run_one(&cfg, &prefix) {
+        Err(e) => {
+            eprintln!("MACHINERY: {}", e);
+            return 2;
+        }
+        Ok(out) => {
+            println!("{}", out.result.class);
+            for (sig, what) in out.result.violations {
+                println!("  {} {}", sig, what);
+                report.violation(sig, what, r.clone());
+            }
+        }
+    }
+    common::finish(ctx, report, Evidence::new("model_checking"))
+}
+
 fn replay(ctx: &Ctx, path: &std::path::Path) -> i32 {
     let doc: Value = serde_json::from_str(&std::fs::read_to_string(path).expect("replay file")).expect("json");
     let r = &doc["replay"];
+    if !r["wire"].is_null() {
+        return replay_wire(ctx, r);
+    }
     let ops: Vec<Op> = r["ops"].as_array().unwrap().iter().map(|o| op_from(o.as_str().unwrap())).collect();
     std::env::set_var("MC_SHOW_PANICS", "1");
     let mut report = Report::new();
@@ -620,8 +644,22 @@ pub fn run(ctx: &Ctx) -> i32 {
             |s| s.key(),
         )
     };
+    // ---- wire level
+    let (wire_report, wire_execs, wire_obs, wire_classes, wire_capped) = match super::c13w::explore(ctx.tier) {
+        Ok(r) => r,
+        Err(e) => {
+            eprintln!("MACHINERY: wire level: {}", e);
+            return 2;
+        }
+    };
+    report.merge(wire_report);
+    if wire_classes < 3 {
+        eprintln!("MACHINERY: vacuous C13 wire-level run ({} outcome classes)", wire_classes);
+        return 2;
+    }
     let mut ev = Evidence::new("model_checking");
-    ev.set("states", json!(stats.states))
+    ev.set("wire_level", json!({"executions": wire_execs, "distinct_observations": wire_obs, "outcome_classes": wire_classes, "capped": wire_capped, "rule": "real publisher + subscriber + writer: every schedule with at most 2 (thorough: 3) non-default adversary decisions (drop / duplicate / reorder a datagram between publisher and subscriber, timer first, the writer changes the attribute now) during the first 20 s, with a single-chunk and a three-chunk priming report, one and two changes; FIFO afterwards until 60 s"}))
+        .set("states", json!(stats.states))
         .set("transitions", json!(stats.transitions))
         .set("traces_validated_against_impl", json!(stats.transitions + quiesces.get()))
         .set("exhaustive", json!(true))
